@@ -197,7 +197,8 @@ def selector_problems(fmt):
                 sm = sel + "@" + label_text
             try:
                 out = Shaper(raw_graph=SEL_DOC, shape_map_raw=sm, shape_map_format=JSON if fmt == "json" else FIXED_SHAPE_MAP,
-                             namespaces_dict={"http://ex.org/": "ex", "http://sh.org/": "sx"}, instances_report_mode="abs").shex_graph(string_output=True)
+                             namespaces_dict={"http://ex.org/": "ex", "http://sh.org/": "sx"}, instances_report_mode="abs",
+                             remove_empty_shapes=False).shex_graph(string_output=True)
             except Exception as e:  # noqa
                 problems.append("selector %r (%s) raised %s: %s" % (sel, fmt, type(e).__name__, e))
                 continue
